@@ -5,6 +5,7 @@
     for IEEE binary32 frames and for every sound / effect / tween / pause history. *)
 From Coq Require Import List Arith Bool PeanoNat Reals.
 From KV Require Import C02.Model C02.ProofsList C02.ProofsRefine C02.ProofsCor C02.ProofsLog C02.ProofsClosed.
+From KV Require Import C02.ModelOrder C02.ProofsOrder.
 From KV Require C02.Examples.
 Import ListNotations.
 
@@ -138,3 +139,30 @@ Theorem closed_form_R :
       nth i (snd (spec_mix (semiring_ops R 0%R Rplus Rmult TI TSS TES TCS TO snd_proc fx_proc ctl_env ctl_step res_step out_frame) env sx m)) 0%R =
       closed_form R 0%R 1%R Rplus Rmult TI TSS TES TCS TO snd_proc fx_proc ctl_env ctl_step res_step out_frame env sx m i.
 Proof. exact closed_form_holds_R. Qed.
+
+(** Nothing is lost at pick-up either.  [Renderer::on_start_processing] drains the storages in the order
+    sub-tracks (with their sounds), send tracks, main-track sounds, clocks, listeners, modulators: users before
+    what they refer to.  For EVERY interleaving of the caller (who creates a referenced resource before its
+    user, but through a different queue) with those drains: whenever the audio thread has finished draining and
+    processes, every live resource finds everything it refers to — a track its send tracks, a sound its clock. *)
+Theorem pickup_order_users_first :
+  forall (n : nat) (sched : list ostep),
+    let s := orun n users_first sched in o_pc s = n -> deps_live s.
+Proof. exact pickup_order_l. Qed.
+(** ... and not with send tracks drained before sub-tracks: the track is heard without its send route *)
+Theorem pickup_order_matters :
+  let s := orun 6 (fun _ _ => true) swapped_sched in
+  o_pc s = 6 /\ live s (1, 8) = true /\ live s (0, 7) = false /\ deps_liveb s = false.
+Proof. exact order_matters_l. Qed.
+Theorem pickup_order_example :
+  let s := orun 6 users_first [A_drain; G_add kira_send; G_add kira_track; A_drain; A_drain; A_drain; A_drain; A_drain; A_process;
+                               A_drain; A_drain; A_drain; A_drain; A_drain; A_drain] in
+  o_pc s = 6 /\ live s (k_sub, 8) = true /\ live s (k_send, 7) = true /\ deps_liveb s = true.
+Proof. exact order_example_l. Qed.
+(** references against the order exist in kira (a modulator's tween waiting for a clock): the referrer can be live
+    one callback before its clock — harmless for a tween (it keeps waiting), fatal for a sound (it would be
+    cancelled), which is why sounds are drained before clocks *)
+Theorem pickup_against_the_order :
+  let s := orun 6 (fun _ _ => true) [A_drain; A_drain; A_drain; A_drain; G_add late_clock; G_add early_mod; A_drain; A_drain] in
+  o_pc s = 6 /\ live s (k_mod, 2) = true /\ live s (k_clock, 1) = false.
+Proof. exact against_the_order_l. Qed.
